@@ -212,14 +212,21 @@ func (s *scope) CreateScope(ctx context.Context) (Scope, error) {
 		return nil, fmt.Errorf("failed to create child scope: %w", err)
 	}
 
-	// Track child
+	// Track child; a parent that was closed in the meantime no longer adopts it
 	s.childrenMu.Lock()
+	if s.children == nil {
+		s.childrenMu.Unlock()
+		_ = child.Close()
+		return nil, ErrScopeDisposed
+	}
 	s.children[child] = struct{}{}
 	s.childrenMu.Unlock()
 
 	// Track in provider
 	s.rootProvider.scopesMu.Lock()
-	s.rootProvider.scopes[child] = struct{}{}
+	if s.rootProvider.scopes != nil {
+		s.rootProvider.scopes[child] = struct{}{}
+	}
 	s.rootProvider.scopesMu.Unlock()
 
 	// Auto-close on context cancellation
@@ -345,7 +352,9 @@ func (s *scope) setInstance(descriptor *Descriptor, key instanceKey, instance an
 		s.rootProvider.setSingleton(key, instance)
 	case Scoped:
 		s.instancesMu.Lock()
-		s.instances[key] = instance
+		if s.instances != nil {
+			s.instances[key] = instance
+		}
 		s.instancesMu.Unlock()
 		fallthrough
 	case Transient:
@@ -635,7 +644,9 @@ func (s *scope) shareInstance(descriptor *Descriptor, key instanceKey, instance 
 		s.rootProvider.singletonKeysMu.Unlock()
 	case Scoped:
 		s.instancesMu.Lock()
-		s.instances[key] = instance
+		if s.instances != nil {
+			s.instances[key] = instance
+		}
 		s.instancesMu.Unlock()
 	}
 }
